@@ -74,9 +74,45 @@ impl<const N: usize> error::TexError for OutOfBoundsError<N> {
 
 impl Parsable for char {
     fn parse_impl<S: TexlangState>(input: &mut vm::ExpandedStream<S>) -> txl::Result<Self> {
-        let u1 = Uint::<{ char::MAX as usize }>::parse(input)?;
-        let u2: u32 = u1.0.try_into().unwrap();
-        Ok(char::from_u32(u2).unwrap())
+        let (first_token, i, _) = parse_integer(input)?;
+        if i < 0 || i as usize >= char::MAX as usize {
+            input.error(OutOfBoundsError::<{ char::MAX as usize }> {
+                first_token,
+                got: i,
+            })?;
+            return Ok('\0');
+        }
+        // Not every integer in the range is a character: the surrogate code points
+        // 0xD800-0xDFFF are not Unicode scalar values.
+        match char::from_u32(i as u32) {
+            Some(c) => Ok(c),
+            None => {
+                input.error(InvalidCharacterCodeError {
+                    first_token,
+                    got: i,
+                })?;
+                Ok('\0')
+            }
+        }
+    }
+}
+
+#[derive(Debug)]
+struct InvalidCharacterCodeError {
+    first_token: token::Token,
+    got: i32,
+}
+
+impl error::TexError for InvalidCharacterCodeError {
+    fn kind(&self) -> error::Kind {
+        error::Kind::Token(self.first_token)
+    }
+
+    fn title(&self) -> String {
+        format!(
+            "expected a character code, got {} which is a surrogate code point (0xD800-0xDFFF)",
+            self.got
+        )
     }
 }
 
